@@ -5,9 +5,11 @@ package simrt
 
 import (
 	"fmt"
+	"os"
 	"runtime"
 	"runtime/debug"
 	"sort"
+	"strconv"
 	"strings"
 	"sync"
 	"testing"
@@ -1010,6 +1012,9 @@ func Run(t *testing.T, cfg Config, root func()) (res *Result) {
 	}
 	if cfg.TraceLimit <= 0 {
 		cfg.TraceLimit = 20000
+		if v, err := strconv.Atoi(os.Getenv("VERIF_TRACE_LIMIT")); err == nil && v > 0 {
+			cfg.TraceLimit = v // debugging aid
+		}
 	}
 	if cfg.SpinLimit <= 0 {
 		cfg.SpinLimit = 30000
